@@ -16,6 +16,8 @@ SAN_FLAGS = {
     "ubsan": ("g++", "-O1 -g -fno-omit-frame-pointer " + _UB),
     "prod": ("g++", "-O2 -g"),
     "tsan": ("g++", "-O1 -g -fno-omit-frame-pointer -fsanitize=thread"),
+    # libFuzzer targets (clang only): coverage-guided inputs under ASan
+    "fuzz": ("clang++", "-O1 -g -fno-omit-frame-pointer -fsanitize=fuzzer,address"),
 }
 
 ASAN = "abort_on_error=1:halt_on_error=1:allocator_may_return_null=1:detect_stack_use_after_return=0:print_summary=1"
@@ -37,6 +39,16 @@ FILLS_ALL = [0x00, 0xbe, 0x06, 0x07, 0x0c, 0x20, 0x22, 0x5c, 0x5d, 0x7d, 0x2c, 0
 
 PROPS = {}
 PROPS["_libs"] = {"number_harness.cpp": "-lgmp", "toa_harness.cpp": "-lgmp"}
+PROPS["_deps"] = {"../fuzz/fuzz_parse.cpp": ["parse_harness.cpp"], "../fuzz/fuzz_ondemand.cpp": ["ondemand_harness.cpp"],
+                  "../fuzz/fuzz_merge.cpp": ["lazy_harness.cpp", "schema_harness.cpp"]}
+FUZZ_ENV = {"ASAN_OPTIONS": "abort_on_error=1:detect_leaks=0:allocator_may_return_null=1:quarantine_size_mb=8"}
+
+
+def fuzz_run(prop, src, runs=1500000, max_len=2048):
+    e = dict(FUZZ_ENV)
+    e["VF_PROP"] = prop
+    return dict(name="libfuzzer", kind="fuzz", src="../fuzz/" + src, cfg="fuzz-hsw", env=e, tiers=("thorough",), fuzz_runs=runs, max_len=max_len)
+
 
 # ------------------------------------------------------------------------------------------------ C01
 PROPS["C01"] = dict(
@@ -510,3 +522,8 @@ PROPS["C15"] = dict(
              "on-demand-lookups", "UpdateLazy-calls", "ParseSchema-calls", "api-built-documents-serialised"],
     assumptions=["this CPU has AVX2: the SSE4.2 arm of the dispatcher is reached through hook H1, not through real hardware; g++ 12 only"],
 )
+
+# ------------------------------------------------------------------------------------------------ libFuzzer runs (thorough tier)
+for _p, _s in [("C01", "fuzz_parse.cpp"), ("C02", "fuzz_parse.cpp"), ("C03", "fuzz_parse.cpp"), ("C10", "fuzz_ondemand.cpp"),
+               ("C11", "fuzz_ondemand.cpp"), ("C19", "fuzz_merge.cpp"), ("C20", "fuzz_merge.cpp")]:
+    PROPS[_p]["runs"].append(fuzz_run(_p, _s))
